@@ -135,6 +135,7 @@ class Interp:
         self.loop_counter = []
         self.interpret_all = interpret_all
         self.noop_attr_calls = {"logger", "logging", "warnings"}
+        self.unmodelled_calls = []  # (name, args, kwargs) of calls whose effect is not modelled (frame conditions must account for them)
         self.strict_standins = os.environ.get("PYVC_STRICT_STANDINS", "1") != "0"
         self.set_order_nondet = os.environ.get("PYVC_SET_ORDER", "1") != "0"   # True: iterating a native set forks over every order (C14 hash-seed independence)
         self.heap_writes = []  # (SObj, field) of every attribute store on a symbolic heap object
@@ -380,6 +381,7 @@ class Interp:
             if isinstance(fn, types.BuiltinMethodType) and isinstance(fn.__self__, str) and name.split(".")[-1] == "join" and len(args) == 1:
                 return _str_join_model(self, fn.__self__, args[0])
             self.ctx.note(f"unmodelled-call:{name}")
+            self.unmodelled_calls.append((name, list(args), dict(kwargs)))
             return Opaque(name)
         return self.native(fn, args, kwargs)
 
@@ -420,6 +422,7 @@ class Interp:
                 return self.run_closure(clo, args, kwargs)
             name = getattr(func, "__qualname__", repr(func))
             self.ctx.note(f"unmodelled-call:{func.__module__}.{name}")
+            self.unmodelled_calls.append((f"{func.__module__}.{name}", list(args), dict(kwargs)))
             return Opaque(name)
         self.native_called.add(getattr(func, "__qualname__", repr(func)))
         return self.native(func, args, kwargs)
